@@ -2,6 +2,7 @@
 
 mod c04;
 mod c05;
+mod c06;
 
 fn main() {
     let args = vmodel::ev::parse_args();
@@ -13,6 +14,7 @@ fn main() {
     let ok = match args.sub.as_str() {
         "c04" | "c03a" => c04::run(&args.sub, &args),
         "c05" => c05::run(&args),
+        "c06" => c06::run(&args),
         other => {
             eprintln!("unknown subcommand {}", other);
             std::process::exit(2);
